@@ -99,5 +99,20 @@ def load(model, prefix="vgen", extra_header=""):
     return mod, classes, src
 
 
+def load_source(src, names, prefix="vsrc"):
+    """exec a handwritten model source as a fresh module; returns (module, {name: class}, src)"""
+    _COUNTER[0] += 1
+    modname = f"{prefix}_{_COUNTER[0]}"
+    mod = types.ModuleType(modname)
+    mod.__file__ = f"<handwritten {modname}>"
+    sys.modules[modname] = mod
+    try:
+        exec(compile(src, mod.__file__, "exec", dont_inherit=True), mod.__dict__)
+    except Exception:
+        sys.modules.pop(modname, None)
+        raise
+    return mod, {n: getattr(mod, n) for n in names}, src
+
+
 def unload(mod):
     sys.modules.pop(mod.__name__, None)
